@@ -550,6 +550,11 @@ def dtype_value_lattice(ctx):
                         for i, (g, w) in enumerate(zip(got, want)):
                             n_elems += 1
                             if not tol_ok(g, w, f32):
+                                # an azimuthal difference of exactly +-pi sits on the branch cut of the wrap into [-pi, pi]: float32 and
+                                # float64 arithmetic may legitimately land on opposite ends (ill-conditioned, not a disagreement)
+                                if label.startswith("deltaphi") and g and w and g[0] == w[0] == "s" and \
+                                        abs(abs(float(g[1])) - math.pi) < 1e-5 and abs(abs(float(w[1])) - math.pi) < 1e-5:
+                                    continue
                                 bad.append((f"{desc} element {i} stored {rows[i]}", f"array {g} object {w}", key))
                                 break
                         dist[tag + dtname] = dist.get(tag + dtname, 0) + 1
